@@ -34,98 +34,12 @@ pub fn err_tag(e: &Error) -> &'static str {
 }
 
 
-use crate::market::{MaxPnlFactors, TestMarket, TestMarketConfig};
-use gmsol_model::params::{
-    fee::{BorrowingFeeKinkModelParamsForOneSide, BorrowingFeeParams, FundingFeeParams, LiquidationFeeParams},
-    position::PositionImpactDistributionParams,
-    FeeParams, PositionParams, PriceImpactParams,
-};
-const SECONDS_PER_YEAR: u64 = 365 * 24 * 3600;
+use crate::market::{TestMarket, TestMarketConfig};
 
 pub fn default_cfg64() -> TestMarketConfig<u64, 9> { Default::default() }
-pub fn new_market64(cfg: TestMarketConfig<u64, 9>) -> TestMarket<u64, 9> { TestMarket::with_config(cfg) }
-/// `<u128, 20>` defaults: copy of `gmsol_model::test`'s (market.rs gates them behind a cargo
-/// feature that `h_model` does not define).
-pub fn default_cfg128() -> TestMarketConfig<u128, 20> {
-    TestMarketConfig::<u128, 20> {
-            swap_impact_params: PriceImpactParams::builder()
-                .exponent(200_000_000_000_000_000_000)
-                .positive_factor(400_000_000_000)
-                .negative_factor(800_000_000_000)
-                .build(),
-            swap_fee_params: FeeParams::builder()
-                .fee_receiver_factor(37_000_000_000_000_000_000)
-                .positive_impact_fee_factor(50_000_000_000_000_000)
-                .negative_impact_fee_factor(70_000_000_000_000_000)
-                .build(),
-            position_params: PositionParams::new(
-                100_000_000_000_000_000_000,
-                100_000_000_000_000_000_000,
-                1_000_000_000_000_000_000,
-                500_000_000_000_000_000,
-                500_000_000_000_000_000,
-                250_000_000_000_000_000,
-            ),
-            position_impact_params: PriceImpactParams::builder()
-                .exponent(200_000_000_000_000_000_000)
-                .positive_factor(100_000_000_000)
-                .negative_factor(200_000_000_000)
-                .build(),
-            order_fee_params: FeeParams::builder()
-                .fee_receiver_factor(37_000_000_000_000_000_000)
-                .positive_impact_fee_factor(50_000_000_000_000_000)
-                .negative_impact_fee_factor(70_000_000_000_000_000)
-                .build(),
-            position_impact_distribution_params: PositionImpactDistributionParams::builder()
-                .distribute_factor(100_000_000_000_000_000_000)
-                .min_position_impact_pool_amount(1_000_000_000)
-                .build(),
-            borrowing_fee_params: BorrowingFeeParams::builder()
-                .receiver_factor(37_000_000_000_000_000_000)
-                .factor_for_long(2_820_000_000_000)
-                .factor_for_short(2_820_000_000_000)
-                .exponent_for_long(100_000_000_000_000_000_000)
-                .exponent_for_short(100_000_000_000_000_000_000)
-                .build(),
-            borrowing_fee_kink_model_params: BorrowingFeeKinkModelParamsForOneSide::builder()
-                .optimal_usage_factor(75_000_000_000_000_000_000)
-                .base_borrowing_factor(60_000_000_000_000_000_000 / u128::from(SECONDS_PER_YEAR))
-                .above_optimal_usage_borrowing_factor(
-                    150_000_000_000_000_000_000 / u128::from(SECONDS_PER_YEAR),
-                )
-                .build(),
-            funding_fee_params: FundingFeeParams::builder()
-                .exponent(100_000_000_000_000_000_000)
-                .funding_factor(2_000_000_000_000)
-                .max_factor_per_second(1_000_000_000_000)
-                .min_factor_per_second(30_000_000_000)
-                .increase_factor_per_second(790_000_000)
-                .decrease_factor_per_second(0)
-                .threshold_for_stable_funding(5_000_000_000_000_000_000)
-                .threshold_for_decrease_funding(0)
-                .build(),
-            reserve_factor: 10u128.pow(20),
-            open_interest_reserve_factor: 10u128.pow(20),
-            max_pnl_factors: MaxPnlFactors {
-                deposit: 60_000_000_000_000_000_000,
-                withdrawal: 30_000_000_000_000_000_000,
-                trader: 50_000_000_000_000_000_000,
-                adl: 50_000_000_000_000_000_000,
-            },
-            min_pnl_factor_after_adl: 0,
-            max_pool_amount: 1_000_000_000 * 10u128.pow(20),
-            max_pool_value_for_deposit: 1_000_000_000_000_000 * 10u128.pow(20),
-            max_open_interest: 1_000_000_000 * 10u128.pow(20),
-            // min collateral factor of 0.005 when open interest is $83,000,000
-            min_collateral_factor_for_oi: 5 * 10u128.pow(17) / 83_000_000,
-            ignore_open_interest_for_usage_factor: false,
-            liquidation_fee_params: LiquidationFeeParams::builder()
-                .factor(200_000_000_000_000_000)
-                .receiver_factor(37_000_000_000_000_000_000)
-                .build(),
-        }
-}
-pub fn new_market128(cfg: TestMarketConfig<u128, 20>) -> TestMarket<u128, 20> { TestMarket::new(10u128.pow(20 - 9), 10u128.pow(10), cfg) }
+pub fn new_market64(cfg: TestMarketConfig<u64, 9>) -> TestMarket<u64, 9> { TestMarket::<u64, 9>::with_config(cfg) }
+pub fn default_cfg128() -> TestMarketConfig<u128, 20> { Default::default() }
+pub fn new_market128(cfg: TestMarketConfig<u128, 20>) -> TestMarket<u128, 20> { TestMarket::<u128, 20>::with_config(cfg) }
 
 macro_rules! perp_world {
     ($modname:ident, $U:ty, $I:ty, $D:expr, $W:expr, $SCALE:expr, $defcfg:path, $newm:path) => {
